@@ -28,7 +28,15 @@ def patByte (pat j : Nat) : UInt8 := UInt8.ofNat (pat * 31 + j * 7 + (j / 256) *
 
 def mkPayload (pat len : Nat) : Bytes := (List.range len).map (patByte pat)
 
-inductive Acc | listener | connect | send (len pat : Nat) | close | quit
+/-- the harness' tagged payload: 'T', thread, seq (2 BE), length (4 BE), body derived from (thread, seq) -/
+def mkTagged (thr seq len : Nat) : Bytes :=
+  ([0x54, thr, seq / 256, seq, len / 16777216, len / 65536, len / 256, len].map UInt8.ofNat ++
+    (List.range (len - 8)).map (patByte (thr * 64 + seq + 1))).take len
+
+inductive Acc
+  | listener | connect | send (len pat : Nat) | close | quit
+  | other                        -- a command for ANOTHER session of the same engine: no call on the traced session
+  | tagged (len thr seq : Nat)   -- a payload that names its sender (unlocked concurrent senders)
   deriving Repr
 
 structure DSt where
@@ -56,6 +64,11 @@ def parseNat2 (s : String) : Option (Nat × Nat) :=
 def parseAcc (t : String) : Option Acc :=
   if t = "L" then some .listener else if t = "K" then some .connect else if t = "C" then some .close
   else if t = "Q" then some .quit
+  else if t = "X" then some .other
+  else if t.startsWith "T" then
+    match (t.drop 1).toString.splitOn "." with
+    | [a, b, c] => do let x ← a.toNat?; let y ← b.toNat?; let z ← c.toNat?; pure (.tagged x y z)
+    | _ => none
   else if t.startsWith "S" then (parseNat2 (t.drop 1).toString).map fun (l, p) => .send l p
   else none
 
@@ -150,7 +163,10 @@ def cAnsOf (ts : List Tok) (nth : Nat) : CAns :=
           (match t with
            | [_, v] => if v ≠ "0" then .failed else
               (match ts with
-               | n :: _ => if isK "Cc" n then .established else if isK "E" n && n.getD 1 "" = "D" then .failed else .notYet
+               | n :: rest' =>
+                 if isK "Cc" n then .established
+                 else if isK "E" n && n.getD 1 "" = "D" && (match rest' with | ["Cx", "connect"] :: _ => true | _ => false) then .failed
+                 else .notYet
                | [] => .notYet)
            | _ => .notYet)
         else go ts (k - 1)
@@ -226,7 +242,14 @@ def expectTok (exp : Tok) (ts : List Tok) : Except String (List Tok) :=
 def runCmd (d : DSt) (c : Acc) (ts : List Tok) : Except String (DSt × List Tok) :=
   match c with
   | .listener => .ok (d, ts)
+  | .other => .ok (d, ts)
   | .quit => .ok ({ d with running := false }, ts)
+  | .tagged len thr seq =>
+    match d.sess with
+    | none => .error "send command before the session exists"
+    | some s =>
+      let a := ((ts.find? isW).bind wAnsOf).getD .wantW
+      runIn d s (.cmdSend (mkTagged thr seq len) a) ts
   | .connect =>
     -- doConnect: epoll ADD with IN|OUT(|ET), then for plain sessions the immediate-connect probe
     match expectTok ["E", "A", toString (3 + (if d.cfg.edge then 4 else 0))] ts with
